@@ -121,6 +121,15 @@ def run(chk):
         "launch; a value used before its definition in the output is a violation.")
     chk.assumptions = ["as C01 (step>0, bounds<4096, K-bounded unrolling, clobbering calls)", "pipelines: trace->overlap and trace->dedup->overlap"]
     cases = [(p, True) for p in progs] + [(p, False) for p in progs[:: 2]]
+    # setup values chosen by a pure region op (scf.if) that takes a value computed between the previous launch and the
+    # setup from its surroundings: straight-line, behind a loop, and at the head of a loop body
+    for pa in (15, 16):
+        for d in (0, 1, 2):
+            extra = [(("cfg", "acc1", 0), ("def", d), ("cfg", "acc1", pa)),
+                     (("cfg", "acc1", 1), ("def", d), ("cfg", "acc1", pa), ("def", d + 1), ("cfg", "acc1", 31 - pa)),
+                     (("def", d), ("for", "args", (("cfg", "acc1", pa),))),
+                     (("cfg", "acc1", 0), ("for", "c01", (("def", d), ("cfg", "acc1", pa), ("cfg", "acc1", 3))))]
+            cases += [(p, dd) for p in extra for dd in (True, False)]
     chk.add_results("overlap_vs_input", pmap(case_prog, cases, kw=dict(K=K), chunks=4))
     chk.bounds = dict(programs=len(cases), unroll_K=K, exhaustive_part=n_exh)
     chk.outside = ["programs outside the grammar", f"more than {K} iterations of a loop"]
